@@ -90,7 +90,7 @@ type opDef struct {
 	Need   []string // kind required per argument: bool int string set tuple function any
 	Go     goFn
 	// special oracles
-	ToStr      bool // ToString: TLC.tla leaves the string unspecified; see classify
+	ToStr      bool   // ToString: TLC.tla leaves the string unspecified; see classify
 	Choose     string // CHOOSE: TLA+ predicate text with x free; Go result must satisfy it and be construction-order independent
 	ExceptKeys []int  // EXCEPT: argument positions of the path keys (argument 0 is the function)
 	Refine     func(args []tla.Value) string
